@@ -3,8 +3,9 @@
    ForwardTask.__call__), for EVERY commutative semiring -- hence for the reals, where the terms
    are probabilities; the same definitions are executed at Q against the implementation. *)
 From Coq Require Import List Bool Arith Ring Sorting.Permutation Reals.
-From MTV.Model Require Import Forward.
-From MTV.Proofs Require Import C01_forward.
+From Coq Require Import ZArith.
+From MTV.Model Require Import Matrices Forward FrontEnd.
+From MTV.Proofs Require Import C01_forward C01_frontend.
 Import ListNotations.
 
 Section Generic.
@@ -73,3 +74,31 @@ Theorem C01_real_instance : forall d k m,
   likelihood 1%R Rmult d k m = prodl 1%R Rmult (sel_pol d ++ sel_ar d) k m.
 Proof. exact (C01_posterior_is_product_of_selected_likelihoods 0%R 1%R Rplus Rmult R_semi_ring). Qed.
 Print Assumptions C01_real_instance.
+
+(* ---- from the event dictionary: the observation-matrix builders (model of C11) feeding the forward task.
+   For every event (any number of data types per family, each with its own stations in its own order), any location records that
+   list their stations alike (record k consistent with the first), every tensor: the value at location record k is the product over
+   the SUPPLIED OBSERVATIONS whose station the records list of that observation's probability at its own station's ray in record k
+   (matched by name); manual polarities take precedence over polarity probabilities; amplitude ratios multiply in. *)
+Theorem C01_value_is_product_over_the_supplied_observations :
+  forall (T : Type) (zero one : T) (add mul : T -> T -> T), semi_ring_theory zero one add mul (@eq T) ->
+  forall (atom : nat -> obs -> Z * Z -> nat -> T) pol prob ar samples k m,
+  (forall d, In d (pol ++ prob ++ ar) -> NoDup (map FrontEnd.dname d)) ->
+  records_consistent samples k ->
+  likelihood one mul (front atom pol prob ar samples) k m =
+  mul (match pol with [] => spec_from one mul atom 100 prob samples k m | _ => spec_from one mul atom 0 pol samples k m end)
+      (spec_from one mul atom 200 ar samples k m).
+Proof. intros T zero one add mul SR. exact (front_end_posterior zero one add mul SR). Qed.
+Print Assumptions C01_value_is_product_over_the_supplied_observations.
+
+(* the hypotheses are satisfiable: two location records listing three stations in another order than the data *)
+Example C01_front_end_hypotheses_hold_somewhere :
+  let d := [ob 7 10 20; ob 3 30 40] in
+  let samples := [[mkSt 3 31 41; mkSt 9 0 0; mkSt 7 11 21]; [mkSt 3 32 42; mkSt 9 1 1; mkSt 7 12 22]] in
+  NoDup (map FrontEnd.dname d) /\ records_consistent samples 1 /\
+  taking_part d samples = d /\ ray_of 7 (nth 1 samples []) = (12, 22)%Z.
+Proof.
+  cbv zeta. split; [|split; [|split; reflexivity]].
+  - repeat constructor; simpl; intuition discriminate.
+  - right. eexists. eexists. split; [reflexivity|]. split; [simpl; auto|reflexivity].
+Qed.
